@@ -58,6 +58,8 @@ def _gen_election(rng, family=None, maxc=7, maxb=9):
     for _ in range(k):
         m = rng.choice([1, 1, 1, 2, 3, rng.randint(1, 20)])
         if family == 'bigmult': m = rng.choice([1, 7, 100, 999, rng.randint(1, 10 ** 6)])
+        # ballot totals beyond 2**53: every tally, quota and threshold must still be exact integer / decimal arithmetic
+        if family == 'hugemult': m = rng.choice([2 ** 53 + 1, 10 ** 17 + 30, 10 ** 17 + 31, 3 * 10 ** 18 + 1, 10 ** 20 + 7, rng.randint(2 ** 53, 10 ** 19)])
         if family == 'tie':
             base = list(range(1, n + 1))
             r = base[:rng.randint(1, n)] if rng.random() < 0.5 else rng.sample(base, rng.randint(1, n))
